@@ -5,3 +5,8 @@ Open Scope string_scope.
 
 Lemma listings_sorted : gen_map_ranges = map_ranges_expected.
 Proof. vm_compute. reflexivity. Qed.
+
+(** the bodies of কি_রিমুভ / অব্জেক্ট_কি / অব্জেক্ট_মান are the ones Model/Eval.v's [call_native] transcribes (Spec/NativeMechanism.v) *)
+From Borno Require Import NativeMechanism.
+Lemma native_bodies_match_C12 : pick object_natives gen_native_trace = pick object_natives native_trace_expected.
+Proof. vm_compute. reflexivity. Qed.
